@@ -306,6 +306,86 @@ def check_c15(prog, rep, tier, cfg):
                                     "pasfmt_core::lang::FormattedTokens::get_formatting_data_mut", "pasfmt_core::lang::TokenData::set_token_type"):
                 muts.append((k, c.callee))
     rep.check(not muts, R, "cursor-code-calls-no-mutator", "cursor code calls token mutators: %s" % [(short(a), short(b)) for a, b in muts])
+    cursor_independence(prog, rep, "C15.d")
+
+
+CURSOR_COLLECTION_OPS = {
+    "alloc::vec::Vec::is_empty": "presence only",
+    "core::iter::traits::collect::IntoIterator::into_iter": "complete traversal",
+    "core::iter::traits::iterator::Iterator::collect": "element-wise",
+    "core::iter::traits::iterator::Iterator::map": "element-wise",
+    "core::iter::traits::iterator::Iterator::next": "loop header of a complete traversal (checked)",
+    "core::ops::deref::Deref::deref": "identity",
+    "core::ops::deref::DerefMut::deref_mut": "identity",
+    "core::slice::iter": "complete traversal",
+    "core::slice::iter_mut": "complete traversal",
+    "pasfmt_core::formatter::FileOptions::with_cursors": "hands the list to the formatter",
+    "pasfmt_core::traits::LogicalLinesReconstructor::process_cursors": "hands the list to the tracker",
+    "pasfmt_orchestrator::file_formatter::FileFormatter::output_new_cursors": "prints the list",
+}
+
+
+def cursor_independence(prog, rep, R):
+    """C15.d — every cursor is mapped on its own: collections and iterators of cursors are only traversed completely and element-wise
+    (no peeking, merging, sorting, zipping, searching or early exit), so where one cursor lands cannot depend on the other cursors
+    of the request or on their order."""
+    def coll(t):
+        return "Cursor" in t and (t.startswith("&mut [") or t.startswith("&[") or t.startswith("[") or "Vec<" in t or "Iter" in t or "iter::" in t)
+    n = 0
+    seen = set()
+    for b in prog.bodies.values():
+        if not b.crate.startswith("pasfmt"):
+            continue
+        for c in b.calls():
+            tys = [b.locals[a["place"]["l"]]["ty"] for a in c.args if a["k"] in ("copy", "move")]
+            if not any(coll(t) for t in tys):
+                continue
+            n += 1
+            seen.add(c.callee)
+            if not rep.check(c.callee in CURSOR_COLLECTION_OPS, R, "cursor-collection-op:%s" % (c.callee or "?").split("::")[-1],
+                             "%s applies %s to a collection/iterator of cursors — only complete, element-wise traversals are reviewed (a cursor's result must not depend on the other cursors or their order)" % (short(b.npath), c.callee),
+                             where=c.where()):
+                continue
+            if c.callee == "core::iter::traits::iterator::Iterator::next":
+                loops = b.loops()
+                L = loops.get(c.bb)
+                ok = L is not None
+                why = "not a loop header"
+                if ok:
+                    # exits of the loop: only from the block that tests the result of this `next` (None arm)
+                    tgt = c.t.get("target")
+                    test_blocks = {c.bb, tgt}
+                    # follow straight-line blocks after the call up to the switch on the result
+                    cur = tgt
+                    hops = 0
+                    while cur is not None and b.blocks[cur]["term"]["k"] == "goto" and hops < 4:
+                        cur = b.succ[cur][0] if b.succ[cur] else None
+                        test_blocks.add(cur)
+                        hops += 1
+                    rets = set(b.return_blocks())
+                    bad_exits = []
+                    elem = canon(b, c.args[0])
+                    for u in L:
+                        for v in b.succ[u]:
+                            if v not in L and u not in test_blocks:
+                                # ignore exits that can only diverge (panic paths)
+                                if not (b.reach_from(v, include_start=True) & rets):
+                                    continue
+                                # reviewed form: the exit is decided by a test of a value that does not derive from the cursor at hand
+                                # (relocate_cursors: `tokens().next_back()` is None, i.e. there is no token at all — every remaining cursor would take the same exit)
+                                t = b.blocks[u]["term"]
+                                if t["k"] == "switch":
+                                    from progress import discr_source
+                                    key = discr_source(b, u)
+                                    if key and "next(" + elem not in key and elem not in key and "cursor" not in key.lower() and key.startswith("next_back(tokens("):
+                                        rep.exception(R, "cursor-independent-exit:%s" % short(b.npath), "the traversal stops when `%s` is None (no token at all): the test does not involve the cursor, every remaining cursor would stop there too" % key)
+                                        continue
+                                bad_exits.append((u, v))
+                    ok = not bad_exits
+                    why = "leaves the traversal early at %s" % bad_exits[:2]
+                rep.check(ok, R, "complete-traversal:%s" % short(b.npath), "the loop over the cursors in %s %s" % (short(b.npath), why), where=c.where(), instance={"body": short(b.npath), "loop": "exits on exhaustion only"})
+    rep.floor(R, "operations on cursor collections", n, 20)
+    rep.ok(R, {"operations": sorted((x or "?").split("::")[-1] for x in seen)})
 
 
 def _dep_closure(body, l, seen=None):
@@ -344,5 +424,6 @@ PROPERTIES = {
             "(b) the tracker sees tokens through shared references only, no pipeline stage method receives cursor data, the tracker stores `&mut` only to Cursor values; (c) none of "
             "the token/formatting/reconstructor types has interior mutability, no unsafe code and no mutable static on the path, cursor code calls no token mutator — so by Rust's "
             "aliasing rules nothing the tracker does can be observed by reconstruct. Cursor arithmetic panics are audited under C04.b (two defects fixed there). "
-            "Not decided: where cursors land (clauses 2-3).", []),
+            "Of clauses 2-3 only one structural necessary condition is decided: (d) cursors are mapped independently of each other — collections and iterators of cursors are only traversed completely and element-wise. "
+            "Not decided: where a cursor lands (clauses 2-3).", []),
 }
